@@ -182,6 +182,11 @@ class DBM:
 # ---------------------------------------------------------------------------------------------------
 # linear forms of AST expressions:  (var | 'Z', const)   meaning  var + const
 # ---------------------------------------------------------------------------------------------------
+def zone_is_ptr(t):
+    t = t.rstrip()
+    return t.endswith('*') or t.endswith('*const') or t.endswith('* const')
+
+
 PURE_FORWARDING = ('make_pair', 'make_tuple', 'forward', 'tie', 'min', 'max')
 PTR_VARS = None      # hook: fn -> set of local ids of pointer variables modelled as integer "row" variables (packed storage)
 
@@ -193,7 +198,7 @@ def var_of(fn, n):
         return None
     if n['k'] == 'DeclRefExpr' and 'var' in n:
         lv = fn.locals[n['var']]
-        if PTR_VARS is not None and lv['type'].endswith('*') and n['var'] in PTR_VARS(fn):
+        if PTR_VARS is not None and zone_is_ptr(lv['type']) and n['var'] in PTR_VARS(fn):
             return ('v', n['var'])
         if lv['type'].replace(' &', '') in INT_TYPES and not lv.get('ref'):
             return ('v', n['var'])
@@ -355,12 +360,17 @@ def _parse_diff(fn, n):
     return None
 
 
+PTR_ASSUME = None     # hook: (fn, d, comparison node, truth) -> True if it was a comparison of modelled pointers and has been applied
+
+
 def assume(fn, d, cond, truth):
     """Refine zone d with `cond == truth`.  Returns d (mutated copy semantics are the caller's business)."""
     n = fn.strip(cond)
     if n is None or d.bot:
         return d
     k = n['k']
+    if PTR_ASSUME is not None and k == 'BinaryOperator' and n.get('op') in ('<', '<=', '>', '>=', '==', '!=') and PTR_ASSUME(fn, d, n, truth):
+        return d
     if k == 'UnaryOperator' and n.get('op') == '!':
         return assume(fn, d, fn.nodes[n['c'][0]], not truth)
     if k == 'BinaryOperator' and n.get('op') in ('&&', '||'):
@@ -482,7 +492,7 @@ def killed_vars(fn, n):
     w = written_var(fn, n)
     if w is not None:
         out.add(w[0])
-        if w[0][0] == 'v' and fn.locals[w[0][1]]['type'].endswith('*'):
+        if w[0][0] == 'v' and zone_is_ptr(fn.locals[w[0][1]]['type']):
             out.add(('pc', w[0][1]))       # column variable of a modelled pointer
     if k == 'DeclStmt':
         for dd in n.get('decls', []):
@@ -499,7 +509,7 @@ def killed_vars(fn, n):
             v = var_of(fn, a)
             jj = j - off
             if v is not None and not (jj < 0 and pm is not None) and (pm is None or jj >= len(pm) or pm[jj] != 'C' or n.get('unresolved')):
-                if pm is not None and 0 <= jj < len(pm) and pm[jj] == 'P' and not n.get('unresolved') and v[0] == 'v' and fn.locals[v[1]]['type'].endswith('*'):
+                if pm is not None and 0 <= jj < len(pm) and pm[jj] == 'P' and not n.get('unresolved') and v[0] == 'v' and zone_is_ptr(fn.locals[v[1]]['type']):
                     continue
                 out.add(v)
         if k == 'CXXMemberCallExpr' and n.get('org') == 'S' and not n.get('cconst'):
@@ -574,7 +584,7 @@ def step(fn, d, n):
             if v is not None and (pm is None or jj < 0 or jj >= len(pm) or pm[jj] != 'C' or n.get('unresolved')):
                 if jj < 0 and pm is not None:
                     continue      # an integer variable cannot be the object of a member operator
-                if pm is not None and 0 <= jj < len(pm) and pm[jj] == 'P' and not n.get('unresolved') and fn.locals[v[1]]['type'].endswith('*'):
+                if pm is not None and 0 <= jj < len(pm) and pm[jj] == 'P' and not n.get('unresolved') and zone_is_ptr(fn.locals[v[1]]['type']):
                     continue      # a modelled pointer handed over BY VALUE: the callee may change the pointee, not the pointer
                 d.forget(v)
         # a non-const member call on this object may change integer fields
